@@ -153,15 +153,16 @@ class MDOChain(ProcessDiscipline):
                 # This output has already been taken from previous disciplines
                 # Derivatives must be composed using the chain rule
 
-                # Make a copy of the keys because the dict is changed in the
-                # loop
+                # The discipline overwrites the variables that it computes:
+                # the derivatives wrt these variables are removed from the dict
+                # and replaced by their composition with the discipline Jacobian.
+                output_jacobian = self.jac[output_name]
                 common_inputs = sorted(
-                    set(self.jac[output_name].keys()).intersection(discipline.jac)
+                    set(output_jacobian).intersection(discipline.io.output_grammar)
                 )
-                for input_name in common_inputs:
-                    # Store reference to the current Jacobian
-                    curr_jac = self.jac[output_name][input_name]
-                    for new_in, new_jac in discipline.jac[input_name].items():
+                curr_jacs = [output_jacobian.pop(name) for name in common_inputs]
+                for input_name, curr_jac in zip(common_inputs, curr_jacs):
+                    for new_in, new_jac in discipline.jac.get(input_name, {}).items():
                         # Chain rule the derivatives
                         # TODO: sum BEFORE dot
                         if isinstance(new_jac, JacobianOperator):
@@ -171,10 +172,7 @@ class MDOChain(ProcessDiscipline):
                         else:
                             loc_dot = curr_jac @ new_jac
 
-                        # when input_name==new_in, we are in the case of an
-                        # input being also an output
-                        # in this case we must only compose the derivatives
-                        if new_in in self.jac[output_name] and input_name != new_in:
+                        if new_in in output_jacobian:
                             # The output is already linearized wrt this
                             # input_name. We are in the case:
                             # d o     d o    d o     di_2
@@ -194,11 +192,14 @@ class MDOChain(ProcessDiscipline):
                             #  d x      d i_1   d x    d i_2    d x
                             self.jac[output_name][new_in] = loc_dot
 
-            elif output_name in discipline.jac:
-                # Output of the chain not yet filled in jac,
+            elif output_name in discipline.io.output_grammar:
+                # Output of the chain not yet filled in jac:
+                # the current discipline is the last one that computes it.
                 # Take the jacobian dict of the current discipline to
                 # Initialize. Make a copy !
-                self.jac[output_name] = MDOChain.copy_jacs(discipline.jac[output_name])
+                self.jac[output_name] = MDOChain.copy_jacs(
+                    discipline.jac.get(output_name, {})
+                )
 
     def _compute_diff_in_outs(
         self,
@@ -222,19 +223,11 @@ class MDOChain(ProcessDiscipline):
     ) -> None:
         self._compute_diff_in_outs(input_names, output_names)
 
-        # Initializes self jac with copy of last discipline (reverse mode)
-        last_discipline = self.disciplines[-1]
-        # TODO : only linearize wrt needed inputs/inputs
-        # use coupling_structure graph path for that
-        last_cached = last_discipline.io.get_input_data()
-
-        # The graph traversal algorithm avoid to compute unnecessary Jacobians
-        last_discipline.linearize(last_cached, execute=False)
-        self.jac = self.copy_jacs(last_discipline.jac)
-
-        # reverse mode of remaining disciplines
-        remaining_disciplines = self.disciplines[:-1]
-        for discipline in remaining_disciplines[::-1]:
+        # Reverse mode, from the last discipline to the first one:
+        # the Jacobian of an output is initialized
+        # with a copy of the one of the last discipline that computes it.
+        self.jac = {}
+        for discipline in self.disciplines[::-1]:
             self.reverse_chain_rule(output_names, discipline)
 
         # Remove differentiations that should not be there,
